@@ -223,6 +223,8 @@ def gen(seed, run, sub="pipe", tier="quick"):
     sched = common.gen_sched(r, "%s/%s/c18" % (seed, run), est_steps=300 + 250 * n)
     if any(f["k"] == "burst" for f in faults):
         sched["stall_max"] = min(sched["stall_max"], 0.15)      # hundreds of lines to read: keep the reader moving
+        draws.pop("seg", None)                                   # ... and the lines arriving (no segment gaps)
+        draws.pop("seggap", None)
     return {
         "lane": "c18", "sub": sub, "transport": transport, "via": r.choice(["delegate", "bare"]),
         "cfg": {"greeting": r.choice(["start", "", "start\necho:Marlin 2.1.2"]), "boot": r.choice([0.0, 0.05]),
